@@ -248,6 +248,8 @@ def _conclude(mod, tier, seed, specs, results, problems, stopped_by, t0):
     coverage.update(extra or {})
     if inconclusive:
         coverage["inconclusive_reason"] = inconclusive
+    coverage["repo"] = os.environ.get("VERIF_REPO", "/repo")
+    coverage["repo_head"] = _repo_head(coverage["repo"])
     ev = dict(
         property_id=prop, tier=tier, seed=int(seed), level=mod.LEVEL, coverage=coverage,
         assumptions=list(getattr(mod, "ASSUMPTIONS", [])), wall_s=round(wall, 2),
@@ -306,6 +308,17 @@ def _accepts_inputs(mod):
     import inspect
 
     return "inputs" in inspect.signature(mod.run_case).parameters
+
+
+def _repo_head(repo):
+    try:
+        h = subprocess.run(["git", "-C", repo, "rev-parse", "--short", "HEAD"], stdout=subprocess.PIPE,
+                           stderr=subprocess.DEVNULL, timeout=20).stdout.decode().strip()
+        d = subprocess.run(["git", "-C", repo, "status", "--porcelain", "--untracked-files=no"], stdout=subprocess.PIPE,
+                           stderr=subprocess.DEVNULL, timeout=20).stdout.decode().strip()
+        return h + ("+modified" if d else "")
+    except Exception:  # noqa: BLE001
+        return "unknown"
 
 
 def _slug(s):
